@@ -143,8 +143,35 @@ def match_known(known: list[dict], bucket: str) -> dict | None:
 
 
 # --------------------------------------------------------------------------------------
+def _no_threads():
+    # dask's default threaded scheduler starts a thread pool; threads + fork deadlock
+    try:
+        import dask
+
+        dask.config.set(scheduler="synchronous")
+    except Exception:  # noqa: BLE001
+        pass
+
+
+def _run_regression(args):
+    prop, files, known = args
+    _no_threads()
+    try:
+        mod = importlib.import_module(f"vlib.props.{prop.lower()}")
+        out = []
+        for rf in files:
+            payload = json.loads(Path(rf).read_text())
+            col = Collector()
+            mod.replay(payload["replay"], col)
+            out.append((rf, col))
+        return ("ok", out)
+    except BaseException:  # noqa: BLE001
+        return ("error", traceback.format_exc())
+
+
 def _run_one_shard(args):
     prop, tier, seed, shard, nshards = args
+    _no_threads()
     try:
         mod = importlib.import_module(f"vlib.props.{prop.lower()}")
         ctx = ShardCtx(prop, tier, seed, shard, nshards)
@@ -230,6 +257,7 @@ def main(argv=None) -> int:
     seed = int(os.environ.get("VERIF_SEED", "1") or "1")
     t0 = time.time()
 
+    _no_threads()
     try:
         import funtracks
 
@@ -272,10 +300,14 @@ def main(argv=None) -> int:
     reg_dir = ROOT / "replays" / "regression"
     reg_files = sorted(reg_dir.glob(f"{prop}-*.json")) if reg_dir.exists() else []
     try:
-        for rf in reg_files:
-            payload = json.loads(rf.read_text())
-            col = Collector()
-            mod.replay(payload["replay"], col)
+        ctxm = mp.get_context("fork")
+        with ctxm.Pool(1) as pool:
+            status, reg_out = pool.apply(_run_regression, ((prop, [str(f) for f in reg_files], known),))
+        if status != "ok":
+            print("HARNESS-ERROR: regression replay failed\n" + reg_out)
+            return 2
+        for rf_s, col in reg_out:
+            rf = Path(rf_s)
             total.event("regression_replays")
             total.evaluations += max(col.evaluations, 1)
             for bucket, f in col.failures.items():
